@@ -31,7 +31,7 @@ Proof. intros (H1 & _). rewrite H1. reflexivity. Qed.
 Lemma inv05_edit_shape w h w' :
   Inv05 T w -> edit_shape T w h w' -> ref_text T w' h = ref_text T w h -> Inv05 T w'.
 Proof.
-  intros HI [->|(n & n' & Hn & H1 & H2 & H3 & H4 & H5 & ->)] Ht; [exact HI|].
+  intros HI [->|(n & n' & Hn & H1 & H2 & H3 & Hc & H4 & H5 & ->)] Ht; [exact HI|].
   apply (inv05_transfer T w (edit_world w h n')); [|reflexivity|exact HI].
   intros m p r. unfold RefSet. rewrite (mreach_edit T w h n n' Hn H1 H2 H3 H4 H5).
   destruct (N.eq_dec r h) as [->|Hne]; [rewrite Ht; tauto|].
@@ -46,7 +46,7 @@ Lemma inv05_citem w h w' :
   Inv05 T w -> edit_shape T w h w' -> (w' = w \/ forall n, w_nodes w h = Some n -> isref T (n_type n) = false) -> Inv05 T w'.
 Proof.
   intros HI Hs [->|Hnr]; [exact HI|]. eapply inv05_edit_shape; eauto.
-  destruct Hs as [->|(n & n' & Hn & _ & Ht & _ & _ & _ & ->)]; [reflexivity|]. apply (edit_noref_text w h n n'); auto.
+  destruct Hs as [->|(n & n' & Hn & _ & Ht & _ & _ & _ & _ & ->)]; [reflexivity|]. apply (edit_noref_text w h n n'); auto.
 Qed.
 
 Theorem C05_insert_citem h text pos w r w' :
@@ -81,7 +81,7 @@ Proof. intros H. apply modify_model_inv in H as (x & Hx & _ & ->). exists x. spl
 (* the common frame of the three operations: an OO step on model m and an edit of node h, in either order *)
 Section Frame.
 Variables (w wa wb : world) (h : id) (n n' : node) (m : N) (x : model) (f : list (list N * list id) -> list (list N * list id)).
-Hypothesis HF : TreeFacts w.
+Hypothesis Honly : forall m2, MReach T w m2 h -> m2 = m.
 Hypothesis Hn : w_nodes w h = Some n.
 Hypothesis Hname : n_name n' = n_name n.
 Hypothesis Htype : n_type n' = n_type n.
@@ -128,7 +128,7 @@ Theorem frame_inv05 old_t new_t :
   Inv05 T w -> Inv05 T wb.
 Proof.
   intros Ho Hnw Hf.
-  apply (retarget_inv05 T w wb m h x (set_origins x (f (m_origins x))) old_t new_t HF frame_reach frame_text Ho Hnw Hm Hx
+  apply (retarget_inv05 T w wb m h x (set_origins x (f (m_origins x))) old_t new_t Honly frame_reach frame_text Ho Hnw Hm Hx
            frame_model Hf frame_others).
 Qed.
 
@@ -148,11 +148,12 @@ End Frame.
 (* an edit of a node without sub-elements that is not a SHORT-NAME element *)
 Lemma leafnode_edit_shape w h n n' :
   w_nodes w h = Some n -> n_name n' = n_name n -> n_type n' = n_type n ->
-  elem_ids (n_content n') = [] -> elem_ids (n_content n) = [] -> n_name n <> SHORTN ->
+  chars_content (n_content n') -> elem_ids (n_content n) = [] -> n_name n <> SHORTN ->
   edit_shape T w h (edit_world w h n').
 Proof.
-  intros Hn H1 H2 H3 H4 H5. right. exists n, n'. split; [exact Hn|]. split; [exact H1|]. split; [exact H2|].
-  split; [congruence|]. split; [intros E; contradiction|]. split; [|reflexivity].
+  intros Hn H1 H2 Hc H4 H5. pose proof (chars_content_elems _ Hc) as H3.
+  right. exists n, n'. split; [exact Hn|]. split; [exact H1|]. split; [exact H2|].
+  split; [congruence|]. split; [intros _; exact Hc|]. split; [intros E; contradiction|]. split; [|reflexivity].
   intros _. right. split; apply hd_no_elem_not_identifiable; assumption.
 Qed.
 
@@ -169,10 +170,10 @@ Proof.
   destruct (n_name n =? SHORT T) eqn:Es; [winv H; exact HI5|]. apply N.eqb_neq in Es.
   wval H cd Hcd. destruct cd as [d|]; [|winv H; exact HI5].
   wval H isr Hisr.
-  assert (Hleaf : elem_ids (n_content n) = []) by (eapply (i4_leaf _ _ _ HI4); eauto).
+  assert (Hleaf : elem_ids (n_content n) = []) by (apply chars_content_elems; eapply (i4_leaf _ _ _ HI4); eauto).
   set (n' := set_content n []) in *.
   assert (Hplain : forall ww, Inv05 T ww -> w_nodes ww h = Some n -> ref_text T ww h = None -> Inv05 T (edit_world ww h n')).
-  { intros ww HIw Hnw Htw. eapply inv05_edit_shape; [exact HIw|apply (leafnode_edit_shape ww h n n'); auto|].
+  { intros ww HIw Hnw Htw. eapply inv05_edit_shape; [exact HIw|apply (leafnode_edit_shape ww h n n'); auto; left; reflexivity|].
     rewrite Htw. unfold ref_text. cbn. rewrite upd_eq. cbn. unfold cdata_of, character_data. cbn.
     destruct (isref T (n_type n)); reflexivity. }
   destruct isr.
@@ -191,10 +192,266 @@ Proof.
     (modify_model m (fun x => set_origins x (remove_origin r0 h (m_origins x))) w) in E0.
   apply modify_origins_world in E0 as (x & Hx & ->).
   apply modify_node_inv in H as (n1 & Hn1 & _ & ->). cbn in Hn1. rewrite Hn in Hn1. injection Hn1 as <-.
-  eapply (frame_inv05 w _ h n n' m x (remove_origin r0 h) HF Hn) with (old_t := Some r0) (new_t := None); eauto.
-  - eapply model_of_mreach; eauto.
+  assert (Hreach : MReach T w m h) by (eapply model_of_mreach; eauto).
+  eapply (frame_inv05 w _ h n n' m x (remove_origin r0 h) (only_model T w m h HF Hreach) Hn) with (old_t := Some r0) (new_t := None); eauto.
   - rewrite (ref_text_node _ _ _ Hn), (isref_val _ _ _ Hisr), (cdata_of_val _ _ _ Hcd). reflexivity.
   - unfold ref_text. cbn. rewrite upd_eq. cbn. unfold cdata_of, character_data. cbn. destruct (isref T (n_type n)); reflexivity.
+Qed.
+
+(* ---------- worlds with the same element structure, reference texts and reference_origins *)
+Lemma reach_child_ext w w' a i :
+  (forall p c, child_of w p c -> child_of w' p c) -> reach T w a i -> reach T w' a i.
+Proof.
+  intros Hc (q & Hd). induction Hd as [|p c q Hp IH Hpc]; [apply reach_refl|].
+  eapply reach_step; [exact IH|apply Hc; exact Hpc].
+Qed.
+
+Definition rview (x : model) := (m_root x, m_origins x).
+
+Lemma inv05_same_refs w w' :
+  (forall p c, child_of w' p c <-> child_of w p c) ->
+  (forall j, ref_text T w' j = ref_text T w j) ->
+  map rview (w_models w') = map rview (w_models w) ->
+  Inv05 T w -> Inv05 T w'.
+Proof.
+  intros Hc Ht Hm.
+  assert (Hmod : forall m, option_map rview (model_at w' m) = option_map rview (model_at w m)).
+  { intros m. unfold model_at. rewrite <- !nth_opt_map, Hm. reflexivity. }
+  apply inv05_transfer.
+  - intros m p r. unfold RefSet, MReach. rewrite Ht. specialize (Hmod m).
+    split; intros ((x & Hx & Hr) & Htx); (split; [|exact Htx]).
+    + rewrite Hx in Hmod. destruct (model_at w m) as [y|]; [|discriminate]. cbn in Hmod. injection Hmod as Hroot _.
+      exists y. split; [reflexivity|]. rewrite <- Hroot. eapply reach_child_ext; [|exact Hr]. intros p0 c0. apply Hc.
+    + rewrite Hx in Hmod. destruct (model_at w' m) as [y|]; [|discriminate]. cbn in Hmod. injection Hmod as Hroot _.
+      exists y. split; [reflexivity|]. rewrite Hroot. eapply reach_child_ext; [|exact Hr]. intros p0 c0. apply Hc.
+  - intros m. specialize (Hmod m). destruct (model_at w' m), (model_at w m); cbn in *; try discriminate; [|reflexivity].
+    injection Hmod as _ Ho. rewrite Ho. reflexivity.
+Qed.
+
+(* computations that keep nodes and (root, origins) of every model: the path-index maintenance *)
+Definition RO (w w' : world) : Prop :=
+  w_nodes w' = w_nodes w /\ map rview (w_models w') = map rview (w_models w).
+Lemma RO_refl w : RO w w. Proof. split; reflexivity. Qed.
+Lemma RO_trans a b c : RO a b -> RO b c -> RO a c.
+Proof. intros (A1 & A2) (B1 & B2). split; congruence. Qed.
+Notation pro := (pres RO).
+Lemma pro_ro {A} (m : W A) : ro m -> pro m. Proof. apply pres_ro. apply RO_refl. Qed.
+Lemma pro_bind {A B} (m : W A) (k : A -> W B) : pro m -> (forall a, pro (k a)) -> pro (wbind m k).
+Proof. apply pres_bind. apply RO_trans. Qed.
+Lemma pro_modify_model m f : (forall x, rview (f x) = rview x) -> pro (modify_model m f).
+Proof.
+  intros Hf w r w' H. apply modify_model_inv in H as (x & Hx & _ & ->). split; [reflexivity|]. cbn.
+  apply list_set_map_same. intros y Hy. rewrite Hx in Hy. injection Hy as <-. apply Hf.
+Qed.
+Ltac ro_step' :=
+  first
+  [ solve [apply pro_ro; ro_tac]
+  | apply pro_modify_model; intros ?; reflexivity
+  | apply pro_bind; [|intros ?]
+  | match goal with
+    | |- pres _ (match ?x with _ => _ end) => destruct x
+    | |- pres _ (if ?b then _ else _) => destruct b
+    end ].
+
+Lemma pro_fix_identifiables m a b : pro (fix_identifiables m a b).
+Proof. unfold fix_identifiables. repeat ro_step'. Qed.
+
+(* ---------- set_character_data (every case) *)
+Theorem C05_set_cdata h val0 w r w' :
+  TreeFacts w -> Inv04 w -> Inv05 T w ->
+  e_set_character_data T tab_en check_fn LATEST h val0 w = Val (r, w') -> Inv05 T w'.
+Proof.
+  intros HF HI4 HI5 H. unfold e_set_character_data in H.
+  wnode H n Hn. wval H mode Hmode.
+  match type of H with (if negb ?c then _ else _) _ = _ => destruct c eqn:Emode end; cbn [negb] in H; [|winv H; exact HI5].
+  assert (Hleaf : elem_ids (n_content n) = []).
+  { apply orb_true_iff in Emode as [Em|Em].
+    - apply N.eqb_eq in Em. subst mode. apply chars_content_elems; eapply (i4_leaf _ _ _ HI4); eauto.
+    - apply andb_true_iff in Em as (_ & Em). apply negb_true_iff in Em. apply no_elem_ids. exact Em. }
+  wval H spec Hspec. destruct spec as [cs|]; [|winv H; exact HI5].
+  wbind_ro H m Em; [|exact HI5]. wbind_ro H ver Ever; [|exact HI5]. wval H ok0 Hok0.
+  wbind_ro H vok Evok.
+  2:{ exfalso. destruct (negb ok0 && _); [|winv Evok]. wval Evok s0 Hs0. wval Evok ok1 Hok1. winv Evok. }
+  assert (Hchk : snd vok = true -> check_value check_fn (fst vok) cs ver = Val true).
+  { destruct (negb ok0 && _).
+    - wval Evok s0 Hs0. wval Evok ok1 Hok1. winv Evok. cbn. intros ->. exact Hok1.
+    - winv Evok. cbn. intros ->. exact Hok0. }
+  clear Evok. destruct vok as [v ok]. cbn [fst snd] in Hchk. destruct ok; cbn [negb] in H; [|winv H; exact HI5].
+  specialize (Hchk eq_refl).
+  wval H cd0 Hcd0.
+  wbind_ro H prev Eprev; [|exact HI5].
+  wval H isr Hisr.
+  set (n' := set_content n [CData v]) in *.
+  wbind_w H u w1 E1. 2:{ apply set_node_inv in E1 as ([=] & _). }
+  apply set_node_inv in E1 as (_ & ->). fold (edit_world w h n') in H.
+  destruct isr.
+  - (* a reference element: never a SHORT-NAME, so there is no re-keying *)
+    assert (Hns : n_name n <> SHORTN).
+    { intros Hs. destruct (i4_short _ _ _ HI4 _ _ Hn Hs) as (_ & Hr & _). congruence. }
+    assert (Hprev : prev = None).
+    { unfold SHORT in Eprev. apply N.eqb_neq in Hns. rewrite Hns in Eprev. cbn [andb] in Eprev. winv Eprev. reflexivity. }
+    subst prev. wbind_w H u2 w2 E2; [|winv E2]. winv E2.
+    destruct (tk_refspec _ _ TK _ _ _ _ Hisr Hspec Hchk) as (refval & ->).
+    assert (Hmc : content_mode T (n_type n) = Val MCharacters) by (apply (tk_ref _ _ TK); exact Hisr).
+    assert (Hnew : forall ww, w_nodes ww h = Some n' -> ref_text T ww h = Some refval).
+    { intros ww Hw. rewrite (ref_text_node _ _ _ Hw). unfold n'. rewrite (chars_cdata n (DString refval) Hmc).
+      cbn [set_content n_type]. rewrite (isref_val _ _ _ Hisr). reflexivity. }
+    assert (Hold : ref_text T w h = match cd0 with Some (DString s) => Some s | _ => None end).
+    { rewrite (ref_text_node _ _ _ Hn), (isref_val _ _ _ Hisr), (cdata_of_val _ _ _ Hcd0). reflexivity. }
+    assert (Hreach : MReach T w m h) by (eapply model_of_mreach; eauto).
+    destruct (mreach_alloc T _ _ _ HF Hreach) as (_ & _).
+    assert (Hkids : elem_ids (n_content n') = elem_ids (n_content n)) by (rewrite Hleaf; reflexivity).
+    destruct (match cd0 with Some (DString s) => Some s | _ => None end) as [o|] eqn:Eo.
+    + unfold fix_reference_origins in H. destruct (bytes_eqb o refval) eqn:Eb.
+      * winv H. apply bytes_eqb_spec in Eb. subst o.
+        eapply inv05_edit_shape; [exact HI5|apply (leafnode_edit_shape w h n n'); auto; right; eexists; reflexivity|].
+        rewrite Hold. apply Hnew. cbn. apply upd_eq.
+      * apply modify_model_inv in H as (x & Hx & _ & ->). cbn [edit_world w_models] in Hx. fold (model_at w m) in Hx.
+        pose proof (i5_tidy _ _ HI5 m x Hx) as Htidy.
+        eapply (frame_inv05 w _ h n n' m x
+                  (fun l => let o1 := match assoc_get o l with
+                                      | Some lst => match index_of (N.eqb h) lst with
+                                                    | Some k => let l' := swap_remove_at lst k in
+                                                                if is_empty l' then assoc_remove o l else assoc_insert o l' l
+                                                    | None => l end
+                                      | None => l end in
+                            match assoc_get refval o1 with
+                            | Some lst => assoc_insert refval (lst ++ [h]) o1
+                            | None => o1 ++ [(refval, [h])]
+                            end) (only_model T w m h HF Hreach) Hn) with (old_t := Some o) (new_t := Some refval); eauto.
+        -- apply Hnew. cbn. apply upd_eq.
+        -- apply (fix_origins_eq o refval h (m_origins x) Htidy).
+    + apply modify_model_inv in H as (x & Hx & _ & ->). cbn [edit_world w_models] in Hx. fold (model_at w m) in Hx.
+      eapply (frame_inv05 w _ h n n' m x (add_origin refval h) (only_model T w m h HF Hreach) Hn) with (old_t := None) (new_t := Some refval); eauto.
+      apply Hnew. cbn. apply upd_eq.
+  - (* not a reference: the reference text of h is None before and after, reference_origins is not touched *)
+    assert (Hgen : forall w2, RO (edit_world w h n') w2 -> Inv05 T w2).
+    { intros w2 (Hro1 & Hro2). apply (inv05_same_refs w w2); [| |exact Hro2|exact HI5].
+      - intros p c. unfold child_of. rewrite Hro1. cbn. unfold upd. destruct (p =? h) eqn:Ep; [|tauto].
+        apply N.eqb_eq in Ep. subst p. rewrite Hn. split; intros (y & [= <-] & Hc); exfalso.
+        + cbn in Hc. destruct Hc as [Hc|[]]; discriminate.
+        + apply in_elem_ids in Hc. rewrite Hleaf in Hc. destruct Hc.
+      - intros j. unfold ref_text. rewrite Hro1. cbn. unfold upd. destruct (j =? h) eqn:Ej; [|reflexivity].
+        apply N.eqb_eq in Ej. subst j. rewrite Hn. cbn [n' set_content n_type]. rewrite (isref_val _ _ _ Hisr). reflexivity. }
+    apply Hgen. revert H.
+    match goal with |- ?c _ = _ -> _ => assert (Hp : pro c) by (repeat ro_step'; apply pro_fix_identifiables) end.
+    apply Hp.
+Qed.
+
+(* ---------- set_reference_target *)
+Lemma ids_eqb_eq a b : ids_eqb a b = true -> a = b.
+Proof.
+  revert b. induction a as [|x a IH]; intros [|y b]; cbn; try discriminate; auto.
+  intros H. apply andb_true_iff in H as (H1 & H2). apply N.eqb_eq in H1. subst. f_equal. auto.
+Qed.
+Lemma origins_eqb_eq a b : origins_eqb a b = true -> a = b.
+Proof.
+  revert b. induction a as [|[k l] a IH]; intros [|[k2 l2] b]; cbn; try discriminate; auto.
+  intros H. apply andb_true_iff in H as (H12 & H3). apply andb_true_iff in H12 as (H1 & H2).
+  apply bytes_eqb_spec in H1. apply ids_eqb_eq in H2. subst. f_equal. auto.
+Qed.
+Lemma all_origins_eqb_eq a b : all_origins_eqb a b = true -> map m_origins a = map m_origins b.
+Proof.
+  revert b. induction a as [|x a IH]; intros [|y b]; cbn; try discriminate; auto.
+  intros H. apply andb_true_iff in H as (H1 & H2). apply origins_eqb_eq in H1. rewrite H1. f_equal. auto.
+Qed.
+
+Notation Known05 := (Known05 T tab_el tab_en check_fn LATEST root_attrs).
+
+Lemma SV_mreach w w' m i : SV w w' -> (MReach T w' m i <-> MReach T w m i).
+Proof. intros H. apply SV_IV in H. split; apply mreach_iv; [apply IV_sym|]; exact H. Qed.
+
+Theorem C05_set_reference_target h target w r w' :
+  TreeFacts w -> Inv04 w -> Inv05 T w -> Known05 w (OpSetRefTarget h target) = false ->
+  e_set_reference_target T tab_el tab_en check_fn LATEST h target w = Val (r, w') -> Inv05 T w'.
+Proof.
+  intros HF HI4 HI5 HK H. pose proof H as H0. unfold e_set_reference_target in H.
+  wnode H n Hn. wval H isr Hisr. destruct isr; cbn [negb] in H; [|winv H; exact HI5].
+  wbind_ro H new_ref Enr; [|exact HI5]. wnode H tn Htn. wval H txt Htxt.
+  wbind_ro H item Eitem.
+  2:{ destruct (from_bytes tab_en txt); winv Eitem. }
+  destruct item as [enum_item|]; [|winv H; exact HI5].
+  wbind_ro H m Em; [|exact HI5]. wbind_ro H ver Ever; [|exact HI5].
+  wbind_w H ra w1 Ea. 2:{ apply wtry_inv in Ea as (? & _ & [=]). }
+  apply wtry_inv in Ea as (r0 & Ea & Hra). injection Hra as ->. apply raw_set_attribute_sv in Ea.
+  assert (HI51 : Inv05 T w1) by (eapply Inv05_sv; eauto).
+  assert (HI41 : Inv04 w1) by (eapply Inv04_iv; [apply SV_IV; exact Ea|exact HI4]).
+  destruct r0 as [u|e]; [|winv H; exact HI51].
+  wnode H n2 Hn2. wval H cd Hcd.
+  assert (Hreach : MReach T w m h) by (eapply model_of_mreach; eauto).
+  assert (Hreach1 : MReach T w1 m h) by (apply (SV_mreach _ _ _ _ Ea); exact Hreach).
+  assert (Honly1 : forall m2, MReach T w1 m2 h -> m2 = m).
+  { intros m2 H2. apply (SV_mreach _ _ _ _ Ea) in H2. eapply only_model; eauto. }
+  assert (Hty : n_type n2 = n_type n /\ n_name n2 = n_name n).
+  { destruct Ea as (Hnv & _). specialize (Hnv h). rewrite Hn, Hn2 in Hnv. cbn in Hnv. unfold tview in Hnv. split; congruence. }
+  destruct Hty as (Hty & Hnm).
+  assert (Hisr2 : is_ref T (n_type n2) = Val true) by (rewrite Hty; exact Hisr).
+  assert (Hmode : content_mode T (n_type n2) = Val MCharacters) by (apply (tk_ref _ _ TK); exact Hisr2).
+  assert (Hns : n_name n2 <> SHORTN).
+  { intros Hs. destruct (i4_short _ _ _ HI41 _ _ Hn2 Hs) as (_ & Hr & _). congruence. }
+  assert (Hleaf : elem_ids (n_content n2) = []) by (apply chars_content_elems; eapply (i4_leaf _ _ _ HI41); eauto).
+  set (old_t := match cd with Some (DString o) => Some o | _ => None end).
+  assert (Hold : ref_text T w1 h = old_t).
+  { rewrite (ref_text_node _ _ _ Hn2), (isref_val _ _ _ Hisr2), (cdata_of_val _ _ _ Hcd). reflexivity. }
+  (* the reference_origins step *)
+  wbind_w H u2 w2 Eo.
+  2:{ (* it cannot fail with an error *)
+      destruct cd as [[| o | |]|]; try (apply modify_model_inv in Eo as (? & _ & Hd & _); discriminate Hd).
+      unfold fix_reference_origins in Eo. destruct (bytes_eqb o new_ref); [winv Eo|].
+      apply modify_model_inv in Eo as (? & _ & Hd & _). discriminate Hd. }
+  assert (Hoo : OO w1 w2).
+  { destruct cd as [[| o | |]|];
+      first [eapply poo_fix_reference_origins; exact Eo | eapply poo_add_reference_origin; exact Eo]. }
+  assert (Hn2' : w_nodes w2 h = Some n2) by (rewrite (OO_node _ _ _ Hoo); exact Hn2).
+  (* the text write *)
+  unfold raw_set_character_data in H.
+  wnode H n3 Hn3. rewrite Hn2' in Hn3. injection Hn3 as <-.
+  wval H mode Hm. rewrite Hmode in Hm. injection Hm as <-. change (MCharacters =? MCharacters) with true in H. cbn [orb] in H.
+  assert (Hfail : r = ER IncorrectContentType -> w' = w2 -> Inv05 T w').
+  { (* the finding class K05-setref is excluded: the maps are as before *)
+    intros -> ->. unfold Refs.Known05 in HK. cbn [run_op] in HK. unfold wunit, wbind in HK. rewrite H0 in HK.
+    apply negb_false_iff in HK. apply all_origins_eqb_eq in HK.
+    apply (inv05_transfer T w w2); [| |exact HI5].
+    - intros m2 p0 r0. unfold RefSet. rewrite (OO_mreach _ _ _ _ Hoo), (SV_mreach _ _ _ _ Ea).
+      rewrite (OO_ref_text _ _ _ Hoo), (ref_text_sv T _ _ _ (proj1 Ea)). tauto.
+    - intros m2. unfold model_at. rewrite <- !nth_opt_map, HK. reflexivity. }
+  wval H spec Hspec. destruct spec as [cs|]; [|winv H; apply Hfail; reflexivity].
+  wval H ok Hok. destruct ok; [|winv H; apply Hfail; reflexivity].
+  apply set_node_inv in H as (_ & ->). clear Hfail.
+  set (n' := set_content n2 [CData (DString new_ref)]).
+  assert (Hn'eq : set_content n2 (match n_content n2 with [] => [CData (DString new_ref)] | _ :: r1 => CData (DString new_ref) :: r1 end) = n').
+  { unfold n'. destruct (i4_leaf _ _ _ HI41 _ _ Hn2 Hmode) as [->|(d0 & ->)]; reflexivity. }
+  rewrite Hn'eq.
+  assert (Hkids : elem_ids (n_content n') = elem_ids (n_content n2)) by (rewrite Hleaf; reflexivity).
+  destruct Hreach1 as (x & Hx & Hrx).
+  assert (Hreach1 : MReach T w1 m h) by (exists x; auto).
+  assert (Hnewt : forall ww, w_nodes ww h = Some n' -> ref_text T ww h = Some new_ref).
+  { intros ww Hw. rewrite (ref_text_node _ _ _ Hw). unfold n'. rewrite (chars_cdata n2 (DString new_ref) Hmode).
+    cbn [set_content n_type]. rewrite (isref_val _ _ _ Hisr2). reflexivity. }
+  (* the shape of the origins step *)
+  destruct cd as [[| o | |]|];
+    try (apply modify_model_inv in Eo as (x2 & Hx2 & _ & ->); fold (model_at w1 m) in Hx2; rewrite Hx in Hx2; injection Hx2 as <-;
+         eapply (frame_inv05 w1 _ h n2 n' m x (add_origin new_ref h) Honly1 Hn2) with (old_t := None) (new_t := Some new_ref); eauto;
+         apply Hnewt; cbn; apply upd_eq).
+  unfold fix_reference_origins in Eo. destruct (bytes_eqb o new_ref) eqn:Eb.
+  - winv Eo. apply bytes_eqb_spec in Eb. subst o.
+    eapply inv05_edit_shape; [exact HI51|apply (leafnode_edit_shape w1 h n2 n'); auto; right; eexists; reflexivity|].
+    rewrite Hold. apply Hnewt. cbn. apply upd_eq.
+  - apply modify_model_inv in Eo as (x2 & Hx2 & _ & ->). fold (model_at w1 m) in Hx2. rewrite Hx in Hx2. injection Hx2 as <-.
+    pose proof (i5_tidy _ _ HI51 m x Hx) as Htidy.
+    eapply (frame_inv05 w1 _ h n2 n' m x
+              (fun l => let o1 := match assoc_get o l with
+                                  | Some lst => match index_of (N.eqb h) lst with
+                                                | Some k => let l' := swap_remove_at lst k in
+                                                            if is_empty l' then assoc_remove o l else assoc_insert o l' l
+                                                | None => l end
+                                  | None => l end in
+                        match assoc_get new_ref o1 with
+                        | Some lst => assoc_insert new_ref (lst ++ [h]) o1
+                        | None => o1 ++ [(new_ref, [h])]
+                        end) Honly1 Hn2) with (old_t := Some o) (new_t := Some new_ref); eauto.
+    + apply Hnewt. cbn. apply upd_eq.
+    + apply (fix_origins_eq o new_ref h (m_origins x) Htidy).
 Qed.
 
 End REdit.
